@@ -446,4 +446,5 @@ def run(ctx):
     from rules import families as _fam
     _fam.reader(ctx, "C12")
     _fam.mapping_list(ctx, "C12")
+    _fam.stack_lookup(ctx, "C12")
 
